@@ -55,14 +55,42 @@ theorem strides_lt (L : Nat) : ∀ i ∈ strides L, 1 ≤ i ∧ i < L := by
 theorem cumops_len_one (v : Nat → α) : cumops op 1 v = v := by
   unfold cumops strides stridesFrom; simp
 
-/-- Positions outside the scanned range are never touched. -/
-theorem step_outside (L i : Nat) (v : Nat → α) (j : Nat) (hj : L ≤ j) : step op L i v j = v j := by
-  unfold step; simp; intro _ h; omega
+/-- Length 0: nothing happens either (torch: an empty `arange`, no round). -/
+theorem cumops_len_zero (v : Nat → α) : cumops op 0 v = v := by
+  unfold cumops strides stridesFrom; simp
 
-theorem ofFn_getD {β} [Inhabited β] (n : Nat) (f : Fin n → β) (j : Nat) (hj : j < n) :
-    (Array.ofFn f).getD j default = f ⟨j, hj⟩ := by
-  rw [Array.getD_eq_getD_getElem?]
-  simp [hj]
+/-- Positions outside the scanned range are never touched by the whole scan. -/
+theorem cumops_outside (L : Nat) (v : Nat → α) (j : Nat) (hj : L ≤ j) : cumops op L v j = v j := by
+  unfold cumops
+  generalize strides L = l
+  induction l generalizing v with
+  | nil => rfl
+  | cons i l ih => simp only [List.foldl_cons]; rw [ih, step_outside op L i v j hj]
+
+/-! ### the public wrappers -/
+
+/-- **`cummul` / `cumprod` (and their in-place and LieTensor-method forms)**: with `left=True` (the default)
+position `j` holds `x_j ∘ … ∘ x₀`, with `left=False` it holds `x₀ ∘ … ∘ x_j`, where `∘` is `*` for `cummul`
+and `@` for `cumprod` — for every length, any associative `*` / `@`. -/
+theorem wrapper_spec (mul mm : α → α → α)
+    (hmul : ∀ a b c : α, mul (mul a b) c = mul a (mul b c)) (hmm : ∀ a b c : α, mm (mm a b) c = mm a (mm b c))
+    (api : Api) (left : Option Bool) (L : Nat) (v : Nat → α) (j : Nat) (hj : j < L) :
+    wrapper mul mm api left L v j =
+      match api, resolveLeft left with
+      | .cummul, true => segLeft mul v j
+      | .cummul, false => seg mul v 0 j
+      | .cumprod, true => segLeft mm v j
+      | .cumprod, false => seg mm v 0 j := by
+  unfold wrapper
+  cases api <;> cases h : resolveLeft left <;> simp only [wrapperOp]
+  · exact cumops_spec mul hmul L v j hj
+  · exact cumopsLeft_spec mul hmul L v j hj
+  · exact cumops_spec mm hmm L v j hj
+  · exact cumopsLeft_spec mm hmm L v j hj
+
+/-- omitting `left` is `left=True` -/
+theorem wrapper_default_left (mul mm : α → α → α) (api : Api) (L : Nat) (v : Nat → α) :
+    wrapper mul mm api none L v = wrapper mul mm api (some true) L v := rfl
 
 /-- The executable array variant run by the driver computes `cumops`. -/
 theorem cumopsArr_eq [Inhabited α] (xs : Array α) (j : Nat) (hj : j < xs.size) :
@@ -88,6 +116,19 @@ theorem cumopsArr_eq [Inhabited α] (xs : Array α) (j : Nat) (hj : j < xs.size)
       · simp only [hij, false_and, if_false]
         exact h j hj
   exact key (strides L) xs _ hL (fun j _ => rfl) j hj
+
+/-- what the driver runs for a wrapper call is the wrapper model -/
+theorem runApi_eq [Inhabited α] (mul mm : α → α → α) (api : Api) (left : Option Bool) (xs : List α) (j : Nat)
+    (hj : j < xs.length) :
+    (runApi mul mm api left xs).getD j default = wrapper mul mm api left xs.length (fun j => xs.getD j default) j := by
+  unfold runApi wrapper
+  have h := cumopsArr_eq (wrapperOp mul mm api (resolveLeft left)) xs.toArray j (by simpa using hj)
+  simp only [List.size_toArray] at h
+  have e : (fun j => xs.toArray.getD j default) = (fun j => xs.getD j default) := by
+    funext k; simp [List.getD_eq_getElem?_getD, Array.getD_eq_getD_getElem?]
+  rw [e] at h
+  rw [← h]
+  simp [List.getD_eq_getElem?_getD, Array.getD_eq_getD_getElem?]
 
 /-- Scanning along `dim` of a `(outer, L, inner)` tensor: every fibre is the ordered fold of its own
 items — for every shape. -/
@@ -159,7 +200,7 @@ theorem scanOut_input_untouched (w : View) (top : Nat) (m : Nat → α) (a : Nat
   simp only [cloneView]
   omega
 
-/-- **Out of place returns the fold** in a fresh contiguous tensor. No non-overlap requirement on
+/-- **Out of place returns the fold** in fresh storage (laid out fibre-major in the model; torch's clone keeps the input's dimension order — same values per logical element). No non-overlap requirement on
 the input view: reading an expanded tensor is legal. -/
 theorem scanOut_spec (hassoc : ∀ a b c : α, op (op a b) c = op a (op b c))
     (w : View) (top : Nat) (m : Nat → α) (f j : Nat) (hf : f < w.F) (hj : j < w.L) :
@@ -198,12 +239,6 @@ theorem nonOverlapB_iff (w : View) : w.nonOverlapB = true ↔ w.NonOverlap := by
       rfl
     · left; exact he
 
-theorem invTable_fold_size (w : View) (n : Nat) (l : List (Nat × Nat)) :
-    (List.foldr (fun p t => t.setIfInBounds (w.addr p.1 p.2) (some p)) (Array.replicate n none) l).size = n := by
-  induction l with
-  | nil => simp
-  | cons q l ih => simp [ih]
-
 /-- the inverse-address table used by the executable variant is `find` -/
 theorem invTable_eq_find (w : View) (n a : Nat) (ha : a < n) :
     (invTable w n).getD a none = w.find a := by
@@ -221,6 +256,26 @@ theorem invTable_eq_find (w : View) (n a : Nat) (ha : a < n) :
       rw [this]
       rw [← ih]
       simp [Array.getD_eq_getD_getElem?, Array.getElem?_setIfInBounds_ne hp]
+
+/-- **The input view itself is untouched by the out-of-place call** when it lies in already-allocated storage
+(below `top`) — the reading of "leaves the input untouched" for the tensor the caller passed. -/
+theorem scanOut_input_view_untouched (w : View) (top : Nat) (m : Nat → α)
+    (hw : ∀ f j, f < w.F → j < w.L → w.addr f j < top) (f j : Nat) (hf : f < w.F) (hj : j < w.L) :
+    scanOut op w top m (w.addr f j) = m (w.addr f j) :=
+  scanOut_input_untouched op w top m _ (hw f j hf hj)
+
+/-- **Error branch.** The in-place call is refused exactly for views in which two elements share an address
+(torch raises); otherwise it is `scanMem`. -/
+theorem scanMemChecked_none_iff (w : View) (m : Nat → α) :
+    scanMemChecked op w m = none ↔ ¬ w.NonOverlap := by
+  unfold scanMemChecked
+  rw [← nonOverlapB_iff]
+  by_cases h : w.nonOverlapB = true <;> simp [h]
+
+theorem scanMemChecked_some (w : View) (m : Nat → α) (hw : w.NonOverlap) :
+    scanMemChecked op w m = some (scanMem op w m) := by
+  unfold scanMemChecked
+  rw [(nonOverlapB_iff w).2 hw]; rfl
 
 /-- The executable finite-buffer variant run by the driver computes `scanMem` (for views that lie
 inside the buffer). -/
